@@ -13,11 +13,10 @@ MANIFEST = {
              "Dedup window reports every packet number that was inserted before - whatever happened in between, including "
              "jumps >= 128 - and every number left of the window as duplicate (dedup_at_most_once), reports a number never "
              "inserted and inside the window as new (no false duplicates), never panics below u64::MAX and keeps next = "
-             "highest + 1. The model (u128 window as Z with explicit mod 2^128 and Z bit operations) is tied to the Rust code "
+             "highest + 1; smallest_missing_in_interval is exact w.r.t. that membership and total under its preconditions. The model (u128 window as Z with explicit mod 2^128 and Z bit operations) is tied to the Rust code "
              "on every run by differential correspondence including the window bits, smallest_missing_in_interval / "
              "missing_in_interval and the debug-assertion panics; WINDOW_SIZE is read from the compiled crate."),
     "note": ("Trusted: Coq kernel + vm_compute; hand-written model whose agreement with the code is sampled, not proved; hook "
-             "interpreter; python driver. No axioms. smallest_missing_in_interval is correspondence-tested against an independent "
-             "set-based oracle, not proved. The packet-acceptance pipeline (key selection, stateless reset, first-Initial "
+             "interpreter; python driver. No axioms. The packet-acceptance pipeline (key selection, stateless reset, first-Initial "
              "duplicate F5) is not covered at this level."),
 }
